@@ -12,7 +12,7 @@ import z3
 from pyvc.arrays import Arr, elementwise, fresh_symbolic
 from pyvc.engine import Contract, LoopContract
 from pyvc.models import NP
-from pyvc.values import Num, b_and, ite, lift, num_max, num_min, to_real, to_z3, zb
+from pyvc.values import Num, b_and, ite, lift, num_max, num_min, num_pow, to_real, to_z3, zb
 from specs.sigma import Sigma
 from .c13_kernels import Phi, bvn_spec, bvn_summary, sbvn_summary
 from .common import sym_diagram, sym_vector
@@ -59,6 +59,37 @@ def linear_ramp_contract(dtype="float"):
         return [("prefix_filled", st.each([(0, st.k)], lambda k: lift(st.w.get(k)) == ramp_value(st.pers.get(k), st.low, st.high, st.start, st.end), name="w"), "P")]
     return Contract(WMOD, "linear_ramp", (lambda eng: ramp_args(eng, dtype)), ensures=ensures, definedness="P", loops={0: LoopContract("for i in range(n)", inv, cls="P")},
                     summary=ramp_summary, variant="" if dtype == "float" else "dtype=%s" % dtype)
+
+
+def persistence_weight_contract(n_kind):
+    """persim.images_weights.persistence: one weight per point, the n-th power of its persistence and nothing else (births ignored);
+    n_kind 1 / 2 / 3: polynomial spec;  'real': any exponent, abstract power of (A6) - then the clause pins the dependence on the
+    persistence and the exponent alone; 'default': n omitted -> the persistence itself"""
+    def make_args(eng):
+        b, n = sym_vector(eng, "birth")
+        p, _ = sym_vector(eng, "pers", n=n)
+        a = dict(birth=b, pers=p)
+        if n_kind == "real":
+            a["n"] = eng.fresh_real("n_exp")
+            eng.assume(a["n"].t > 0)
+        elif n_kind != "default":
+            a["n"] = float(n_kind)
+        return a, {"n": n}
+
+    def ensures(a, res):
+        e = a.eng
+        k = e.fresh_int("kq", lo=0, hi=a.g["n"])
+        pk = a.pers.get(k)
+        want = {"default": lambda: pk, 1: lambda: pk, 2: lambda: pk * pk, 3: lambda: pk * pk * pk, "real": lambda: num_pow(pk, a.n)}[n_kind]()
+        return [("one_weight_per_point", lift(res.shape[0]) == a.g["n"], "P"),
+                ("weight_is_power_of_persistence", lift(res.get(k)) == want, "P")]
+
+    def requires(a):
+        if n_kind != "real":
+            return []
+        i = z3.Int("pw_i")       # a fractional power needs a non-negative base (persistences are)
+        return [("persistences_non_negative", z3.ForAll([i], z3.Implies(z3.And(i >= 0, i < to_z3(a.g["n"])), a.pers.uf(i) >= 0), patterns=[a.pers.uf(i)]))]
+    return Contract(WMOD, "persistence", make_args, requires=requires, ensures=ensures, definedness="P", variant="n=%s" % n_kind)
 
 
 def ramp_summary(eng, pos, kw):
@@ -176,6 +207,7 @@ def all_contracts(tier):
     cs.append(linear_ramp_contract("int"))
     cs.append(transform_contract("gauss_diag", "linear_ramp", True, dtype="int"))
     cs.append(transform_contract("uniform", "persistence", True, dtype="int"))
+    cs += [persistence_weight_contract(k) for k in ("default", 1, 2, 3, "real")]
     t = table()
     return cs, t
 
